@@ -2,4 +2,178 @@
 import Pk.Model.Manager
 namespace Pk.Proofs.MgrTags
 open Pk.Mgr
+
+theorem str_tri {a b : String} (h : ¬ a < b) (h2 : a ≠ b) : b < a := by
+  rcases Decidable.em (b < a) with h3 | h3
+  · exact h3
+  · exact absurd (String.le_antisymm (String.not_lt.mp h3) (String.not_lt.mp h)) h2
+
+/-! ## id sets -/
+@[simp] theorem mem_ins (x y : Nat) (l : List Nat) : x ∈ ins y l ↔ x = y ∨ x ∈ l := by
+  induction l with
+  | nil => simp [ins]
+  | cons z zs ih =>
+    simp only [ins]
+    split
+    · simp
+    · split
+      · subst_vars; simp
+      · simp [ih]; grind
+
+@[simp] theorem mem_union (a b : IdSet) (x : Nat) : x ∈ union a b ↔ x ∈ a ∨ x ∈ b := by
+  unfold union
+  induction b generalizing a with
+  | nil => simp
+  | cons y ys ih => simp [ih]; grind
+
+@[simp] theorem mem_diff (a b : IdSet) (x : Nat) : x ∈ diff a b ↔ x ∈ a ∧ x ∉ b := by
+  simp [diff]
+@[simp] theorem mem_inter (a b : IdSet) (x : Nat) : x ∈ inter a b ↔ x ∈ a ∧ x ∈ b := by
+  simp [inter]
+@[simp] theorem mem_rangeSet (n x : Nat) : x ∈ rangeSet n ↔ x < n := by
+  simp [rangeSet]
+@[simp] theorem mem_ofList (l : List Nat) (x : Nat) : x ∈ ofList l ↔ x ∈ l := by
+  simp [ofList]
+
+@[simp] theorem mem_strIns (x y : String) (l : List String) : x ∈ strIns y l ↔ x = y ∨ x ∈ l := by
+  induction l with
+  | nil => simp [strIns]
+  | cons z zs ih =>
+    simp only [strIns]
+    split
+    · simp
+    · split
+      · subst_vars; simp
+      · simp [ih]; grind
+
+@[simp] theorem mem_strSet (l : List String) (x : String) : x ∈ strSet l ↔ x ∈ l := by
+  unfold strSet
+  suffices h : ∀ acc, x ∈ l.foldl (fun acc x => strIns x acc) acc ↔ x ∈ acc ∨ x ∈ l by simpa using h []
+  induction l with
+  | nil => simp
+  | cons y ys ih => intro acc; simp [ih]; grind
+
+@[simp] theorem mem_refs (t : Tag) (r : String) : r ∈ t.refs ↔ r ∈ t.mainT ∨ r ∈ t.subT := by
+  simp [Tag.refs]
+
+/-! ## string-keyed tables -/
+@[simp] theorem sget_nil {α} (k : String) : sget ([] : List (String × α)) k = none := rfl
+
+theorem sget_cons {α} (k' : String) (v' : α) (r : List (String × α)) (k : String) :
+    sget ((k', v') :: r) k = if k' = k then some v' else sget r k := by
+  simp only [sget, List.find?_cons]
+  by_cases h : k' = k
+  · simp [h]
+  · have : (k' == k) = false := by simpa using h
+    simp [h, this]
+
+theorem sget_sins {α} (k : String) (v : α) (l : List (String × α)) (k' : String) :
+    sget (sins k v l) k' = if k = k' then some v else sget l k' := by
+  induction l with
+  | nil => simp [sins, sget_cons]
+  | cons p r ih =>
+    obtain ⟨k2, v2⟩ := p
+    simp only [sins]
+    split
+    · simp [sget_cons]
+    · split
+      · subst_vars; simp only [sget_cons]; grind
+      · simp only [sget_cons, ih]; grind
+
+theorem sget_sdel {α} (l : List (String × α)) (k k' : String) :
+    sget (sdel l k) k' = if k = k' then none else sget l k' := by
+  induction l with
+  | nil => simp [sdel]
+  | cons p r ih =>
+    obtain ⟨k2, v2⟩ := p
+    simp only [sdel, List.filter_cons] at ih ⊢
+    by_cases h : k2 = k
+    · subst h; simp [sget_cons, ih]; grind
+    · simp [h, sget_cons, ih]; grind
+
+theorem sget_map {α β} (f : String → α → β) (l : List (String × α)) (k : String) :
+    sget (l.map fun p => (p.1, f p.1 p.2)) k = (sget l k).map (f k) := by
+  induction l with
+  | nil => simp
+  | cons p r ih =>
+    obtain ⟨k2, v2⟩ := p
+    simp only [List.map_cons, sget_cons, ih]
+    split <;> simp_all
+
+theorem sget_mem_keys {α} (l : List (String × α)) (k : String) (v : α) (h : sget l k = some v) :
+    k ∈ l.map (·.1) := by
+  induction l with
+  | nil => simp at h
+  | cons p r ih =>
+    obtain ⟨k2, v2⟩ := p
+    rw [sget_cons] at h
+    split at h
+    · simp_all
+    · simp [ih h]
+
+theorem sget_of_mem_keys {α} (l : List (String × α)) (k : String) (h : k ∈ l.map (·.1)) :
+    ∃ v, sget l k = some v := by
+  induction l with
+  | nil => simp at h
+  | cons p r ih =>
+    obtain ⟨k2, v2⟩ := p
+    rw [sget_cons]
+    by_cases hk : k2 = k
+    · simp [hk]
+    · simp only [hk, if_false]; apply ih; simp at h; grind
+
+/-- keys sorted -/
+def Sorted {α} (l : List (String × α)) : Prop := (l.map (·.1)).Pairwise (· < ·)
+
+theorem mem_keys_sins {α} (k : String) (v : α) (l : List (String × α)) (x : String) :
+    x ∈ (sins k v l).map (·.1) ↔ x = k ∨ x ∈ l.map (·.1) := by
+  induction l with
+  | nil => simp [sins]
+  | cons p r ih =>
+    obtain ⟨k2, v2⟩ := p
+    simp only [sins]
+    split
+    · simp
+    · split
+      · subst_vars; simp
+      · simp only [List.map_cons, List.mem_cons, ih]; grind
+
+theorem sorted_sins {α} (k : String) (v : α) (l : List (String × α)) (h : Sorted l) :
+    Sorted (sins k v l) := by
+  unfold Sorted at *
+  induction l with
+  | nil => simp [sins]
+  | cons p r ih =>
+    obtain ⟨k2, v2⟩ := p
+    simp only [sins]
+    simp only [List.map_cons, List.pairwise_cons] at h
+    split
+    · rename_i hlt
+      simp only [List.map_cons, List.pairwise_cons]
+      refine ⟨?_, h⟩
+      intro a ha
+      simp at ha
+      rcases ha with rfl | ha
+      · exact hlt
+      · exact String.lt_trans hlt (h.1 a (by simpa using ha))
+    · split
+      · subst_vars; simpa using h
+      · rename_i h1 h2
+        simp only [List.map_cons, List.pairwise_cons]
+        refine ⟨?_, ih h.2⟩
+        intro a ha
+        rw [mem_keys_sins] at ha
+        rcases ha with rfl | ha
+        · exact str_tri h1 h2
+        · exact h.1 a ha
+
+theorem sorted_sdel {α} (l : List (String × α)) (k : String) (h : Sorted l) : Sorted (sdel l k) := by
+  unfold Sorted at *
+  rw [List.pairwise_map] at *
+  exact h.filter _
+
+theorem sorted_of_keys_eq {α β} (l : List (String × α)) (l' : List (String × β))
+    (hk : l'.map (·.1) = l.map (·.1)) (h : Sorted l) : Sorted l' := by
+  unfold Sorted at *; rw [hk]; exact h
+
 end Pk.Proofs.MgrTags
